@@ -215,6 +215,66 @@ Theorem C16_drive_sends_all_any_timer : forall fuel w s1,
     w_now w' = w_now w /\ w_wire w' = w_wire w ++ owed (s_ob s1).
 Proof. exact drive_sends_all_any. Qed.
 
+From Minimq Require Import Exchange.
+
+(* ---- one whole QoS 1 exchange against the answering broker (mode 1: replies as MQTT prescribes), as ONE statement ----
+   On a quiescent healthy connection without keep-alive: publish() returns its handle with exactly the encoded PUBLISH on the wire;
+   the broker reads that packet whole and answers with the PUBACK of its identifier; the next poll() reads the PUBACK, completes
+   the handle (nothing retained any more), returns the quota slot and leaves the session quiescent with nothing to write. *)
+Theorem C16_publish_q1_is_sent_and_answered : forall w r s2 op ps,
+  Hc w ->
+  ob_ctl (s_ob (w_sess w)) = [] -> ob_rel (s_ob (w_sess w)) = [] -> ob_ret (s_ob (w_sess w)) = [] ->
+  rt_ka_ms (s_rt (w_sess w)) = 0 -> rt_next_ping (s_rt (w_sess w)) = None -> rt_ping_timeout (s_rt (w_sess w)) = None ->
+  w_broker w = 1 -> w_txbuf w = [] -> w_inq w = [] -> w_last_arrival w <= w_now w ->
+  publish_middle (w_sess w) true r = (s2, MRetained op) ->
+  effective_qos (w_sess w) (pr_qos r) = Q1 -> pr_props r = PSlice ps -> op_pid op < 65536 ->
+  exists w1 bs cap off e,
+    op_publish FUEL r w = (w1, ODone (Some op)) /\
+    enc_publish cap (pub_request r Q1 (op_pid op)) = SOk off bs /\
+    w_wire w1 = w_wire w ++ bs /\
+    w_inq w1 = [(w_now w, 64 :: [2] ++ u16_be (op_pid op))] /\
+    Hc w1 /\ s_reader (w_sess w1) = s_reader (w_sess w) /\ w_now w1 = w_now w /\
+    rt_next_ping (s_rt (w_sess w1)) = None /\ rt_ping_timeout (s_rt (w_sess w1)) = None /\
+    ob_ctl (s_ob (w_sess w1)) = [] /\ ob_rel (s_ob (w_sess w1)) = [] /\
+    ob_ret (s_ob (w_sess w1)) = [sent_entry e] /\ re_pid e = op_pid op.
+Proof. exact publish_q1_is_sent_and_answered. Qed.
+
+Theorem C16_qos1_exchange_completes : forall w r s2 op ps,
+  Hc w ->
+  ob_ctl (s_ob (w_sess w)) = [] -> ob_rel (s_ob (w_sess w)) = [] -> ob_ret (s_ob (w_sess w)) = [] ->
+  rt_ka_ms (s_rt (w_sess w)) = 0 -> rt_next_ping (s_rt (w_sess w)) = None -> rt_ping_timeout (s_rt (w_sess w)) = None ->
+  w_broker w = 1 -> w_txbuf w = [] -> w_inq w = [] -> w_last_arrival w <= w_now w ->
+  rdata (rd w) = [] -> rplen (rd w) = None -> 4 <= rcap (rd w) ->
+  publish_middle (w_sess w) true r = (s2, MRetained op) ->
+  effective_qos (w_sess w) (pr_qos r) = Q1 -> pr_props r = PSlice ps -> op_pid op < 65536 ->
+  exists w1 w2 bs cap off,
+    op_publish FUEL r w = (w1, ODone (Some op)) /\
+    enc_publish cap (pub_request r Q1 (op_pid op)) = SOk off bs /\ w_wire w1 = w_wire w ++ bs /\
+    op_poll FUEL w1 = (w2, ODone None) /\ w_live w2 = true /\ w_inq w2 = [] /\
+    ob_ctl (s_ob (w_sess w2)) = [] /\ ob_rel (s_ob (w_sess w2)) = [] /\ ob_ret (s_ob (w_sess w2)) = [] /\
+    next_step (s_ob (w_sess w2)) = None /\
+    rt_quota (s_rt (w_sess w2)) = N.min (N.min (rt_quota (s_rt (w_sess w1)) + 1) 65535) (rt_maxquota (s_rt (w_sess w1))).
+Proof. exact qos1_exchange_completes. Qed.
+
+Theorem C16_exchange_example :
+  snd (publish_middle (w_sess ex_b1) true ex_pub) = MRetained ex_op1 /\
+  snd (op_publish FUEL ex_pub ex_b1) = ODone (Some ex_op1) /\
+  w_wire (fst (op_publish FUEL ex_pub ex_b1)) = w_wire ex_b1 ++ [50; 9; 0; 1; 116; 0; 1; 0; 1; 2; 3] /\
+  w_inq (fst (op_publish FUEL ex_pub ex_b1)) = [(0, [64; 2; 0; 1])] /\
+  snd (op_poll FUEL (fst (op_publish FUEL ex_pub ex_b1))) = ODone None /\
+  ob_ret (s_ob (w_sess (fst (op_poll FUEL (fst (op_publish FUEL ex_pub ex_b1)))))) = [].
+Proof. exact exchange_example. Qed.
+
+Theorem C16_exchange_hyps_met :
+  Hc ex_b1 /\
+  ob_ctl (s_ob (w_sess ex_b1)) = [] /\ ob_rel (s_ob (w_sess ex_b1)) = [] /\ ob_ret (s_ob (w_sess ex_b1)) = [] /\
+  rt_ka_ms (s_rt (w_sess ex_b1)) = 0 /\ rt_next_ping (s_rt (w_sess ex_b1)) = None /\ rt_ping_timeout (s_rt (w_sess ex_b1)) = None /\
+  w_broker ex_b1 = 1 /\ w_txbuf ex_b1 = [] /\ w_inq ex_b1 = [] /\ w_last_arrival ex_b1 <= w_now ex_b1 /\
+  rdata (rd ex_b1) = [] /\ rplen (rd ex_b1) = None /\ 4 <= rcap (rd ex_b1) /\
+  publish_middle (w_sess ex_b1) true ex_pub = (fst (publish_middle (w_sess ex_b1) true ex_pub), MRetained ex_op1) /\
+  effective_qos (w_sess ex_b1) (pr_qos ex_pub) = Q1 /\ pr_props ex_pub = PSlice [] /\ op_pid ex_op1 < 65536.
+Proof. exact exchange_hyps_met. Qed.
+
 Print Assumptions C16_poll_never_returns_idle.
 Print Assumptions C16_sent_entries_not_resent.
 Print Assumptions C16_write_step_advances.
@@ -242,3 +302,7 @@ Print Assumptions C16_healthy_example.
 Print Assumptions C16_poll_sends_all.
 Print Assumptions C16_drive_writes_owed.
 Print Assumptions C16_drive_sends_all_any_timer.
+Print Assumptions C16_publish_q1_is_sent_and_answered.
+Print Assumptions C16_qos1_exchange_completes.
+Print Assumptions C16_exchange_example.
+Print Assumptions C16_exchange_hyps_met.
